@@ -146,165 +146,136 @@ seqNo // c102
 } // c107a
   // c107b
 ")).
-Eval vm_compute in ("<<<M1338>>>" ++ check (runes_of_ascii "// top
-options
-    // c0
-{ ArrayPrefixLenType = // c3
-u64 // c4a
-  // c4b
-; FixedStringPadFromLeft // c6a
-  // c6b
-= true ; // c9
-FixedStringPadChar =
-    // c11
-'0' ; // c13
-} // c14
-packet // c15a
-  // c15b
-Quote // c16
-{ // c17a
-  // c17b
-}
-    // c18
-packet
-    // c19
-Ack // c20a
-  // c20b
-{
-    // c21
-repeat InNote66 { u8 pad0
-    // c26
-, // c27a
-  // c27b
-}
-    // c28
-, // c29
-}
-    // c30
-packet // c31a
-  // c31b
-Reject { // c33
-} // c34
-root // c35
-packet // c36
-Order { // c38
-Quote
-    // c39
-,
-    // c40
-repeat
-    // c41
-Reject
-    // c42
-,
-    // c43
-string venue , // c46a
-  // c46b
-string // c47a
-  // c47b
-seqNo
-    // c48
-,
-    // c49
-uint32 Ref // c51a
-  // c51b
-, // c52a
-  // c52b
-u16 lastPx
-    // c54
-, // c55
-u32
-    // c56
-clOrdID // c57
-@lengthOf( // c58
-Body ) ,
-    // c61
-match // c62a
-  // c62b
-lastPx as Body // c65
-{ // c66a
-  // c66b
-190 : Reject ,
-    // c70
-186 // c71
-: Quote // c73a
-  // c73b
-,
-    // c74
-22 // c75
-:
-    // c76
-Ack ,
-    // c78
-} // c79a
-  // c79b
-, // c80
-u16 // c81a
-  // c81b
-Flags // c82a
-  // c82b
-@calculatedFrom( ""CRC32"" ) ,
-    // c86
-} // c87a
-  // c87b
-")).
-Eval vm_compute in ("<<<M1841>>>" ++ check (runes_of_ascii "options {
-    FixedStringPadFromLeft = true;
-    FixedStringPadChar = '0';
-}
-
-packet Leg {
-    InPrice0 {
-        repeat string clOrdID,
-        int16 msgKind,
-        zchar[5] Px,
-    },
-    i16 f1,
-    repeat f64 Side2,
-    string Acct,
-}
+Eval vm_compute in ("<<<M1478>>>" ++ check (runes_of_ascii "options {
+    StringPrefixLenType = u16;// c5a
+    // c5b
+    ArrayPrefixLenType = u32;
+    // c9
+    FixedStringPadFromLeft = true;// c13
+    FixedStringPadChar = '0';// c17
+}// c18
 
 packet Cancel {
-    zchar[4] clOrdID,
-    string seqNo,
-    Leg,
-    @leftPad('0')
-    char[11] OrderId,
 }
 
-packet Quote {
-    repeat char[4] sym,
-    f64 OrderId,
-    repeat Leg,
-    repeat i64 f1,
-    int16 Note,
-    zchar[3] count,
+packet Party {
 }
 
-root packet Ack {
-    @leftPad(' ')
-    char[10] sym,
-    InPx60 {
-        Cancel,
-        repeat char[1] f1,
-        string Tail,
-        repeat InNote55 {
-            int8 count,
-            f64 f1,
-            repeat Cancel,
+// c26
+packet Logon {
+}
+
+packet Ack {
+}
+
+// c34
+packet Logout {
+    repeat InSym87 {
+        InClordid94 {
+            // c42
+            string clOrdID,// c45a
         },
-        char[] tag7,
-        repeat string msgKind,
-    },
-    u8 lastPx,
-    match lastPx as Body {
-        152 : Quote,
-        173 : Cancel,
-        4 : Leg,
-    },
-    u16 Ref @calculatedFrom(""CR\
-    C32""),
-}")).
+        // c47
+        string Px,
+        // c50
+        i16 Qty,
+        // c53
+        repeat InCount71 {
+            // c56
+            repeat Cancel,
+            // c59
+            uint16 Tail,
+            // c62
+            char[2] x,
+            // c67
+            repeat string Ref,
+        },
+        // c73
+        Cancel,// c75a
+    },// c77
+}
+
+// c78
+root packet Order {
+    repeat string tag7,
+    @leftPad(' ')
+    // c90a
+    // c90b
+    char[3] Px,
+    // c95
+    u8 Qty,
+    // c98
+    match Qty as Body {
+        // c103
+        [28, 62] : Logon,
+        148 : Ack,
+        // c115
+        88 : Party,
+        184 : Cancel,
+        // c123a
+    },// c125
+    u16 Note @calculatedFrom(""CRC32""),
+}// c132")).
+Eval vm_compute in ("<<<M316>>>" ++ check (runes_of_ascii "// `tick` ""quote"" 'q'
+packet crc { @tag(0 ) //x
+chars , i8i8
+@lengthOf( packetx ), repeat
+f32a
+    {
+match packetx as a1{
+    ""x y""
+:
+//
+// `tick` ""quote"" 'q'
+Packet, } ,}
+, @leftPad(
+'\x00' )
+uint8 int ,
+match float as a1 {
+    // `tick` ""quote"" 'q'
+    [4294967296
+    ]
+:// " ++ [27880; 37322]%N ++ runes_of_ascii "
+Packet
+    , } //
+, repeat zchar[ 007 ] zchar`tab	here`
+    , repeat
+// " ++ [27880; 37322]%N ++ runes_of_ascii "
+// a // b
+x
+    , }	packet
+string_
+    // c
+    { char[
+0123456789] a1
+, @calculatedFrom( ""a\\"" ) @tag( 42)
+@leftPad
+('\x00' ) options1
+    @calculatedFrom( """ ++ [28040; 24687]%N ++ runes_of_ascii """
+)`it's`	, repeat
+rootA// packet A { u8 x, }
+{
+    //
+    match Logon as Packet { [10 ,	255 , 0,
+007 ,
+""CRC32""
+, ""abc"" ] : len , """ ++ [28040; 24687]%N ++ runes_of_ascii """:	a1	, } , match leftPad as Header { 007:  As
+, 255: repeatCount , /// triple
+"""" // packet A { u8 x, }
+: matchKey //
+, [ 255 ,
+    3,	""abc"" , """", ""\n"" , 1
+, """"// " ++ [27880; 37322]%N ++ runes_of_ascii "
+,
+42//x
+] : pack ,
+}
+, }
+// @lengthOf(
+// `tick` ""quote"" 'q'
+, int
+{int64 chars , }// @lengthOf(
+, } 	 ")).
 Eval vm_compute in ("<<<M28>>>" ++ check (runes_of_ascii "options
     { string_
 = false
@@ -563,44 +534,37 @@ Foo , repeat float64 zchar, @calculatedFrom(
 ) @lengthOf(A )@lengthOf( roots
 ) options1 @lengthOf(
 Z9_ ),char[] T ,  }")).
-Eval vm_compute in ("<<<M1468>>>" ++ check (runes_of_ascii "// top
-options {
-    // c1
-    LittleEndian = true;// c5a
-}// c6
-
-packet Logon {
-    u8 x,// c12
-}// c13a
-
-// c13b
-packet Logout {
-    // c16
-    u16 reason,// c19a
-}
-
-// c20
-root packet Frame {
-    // c24
-    u16 Kind,// c27a
-    // c27b
-    u16 Kind2,
-    match Kind as Body {
-        // c35
-        1 : Logon,
-        // c39
-        [
-            2, 3,
-            4
-        ] : Logout,
-        // c49
-        100 : Logon,
-    },
-    match Kind2 as Trailer {
-        // c60
-        0 : Logout,
-    },
-}// c67")).
+Eval vm_compute in ("<<<M40>>>" ++ check (runes_of_ascii "packet stringy
+//	t
+//
+{ repeat T// trailing space 
+{ u64 lengthOf
+`tab	here`  ,
+repeat
+_x { match calculatedFrom as Header { [""" ++ [233]%N ++ runes_of_ascii "t" ++ [233]%N ++ runes_of_ascii """
+    ] : _x  ,// @lengthOf(
+[""packet"" ] :
+MetaDataX , 255 : u128,42 :
+A
+""// no comment"" : body
+    , }
+, repeat crc Foo, charz
+    ,
+}	,zchar[ 1
+    ]i8i8@calculatedFrom( ""x y"" ),  uint8x
+    // " ++ [27880; 37322]%N ++ runes_of_ascii "
+    Pad
+`line1
+line2` , } ,
+@lengthOf( u )
+char[ //x
+4294967296 ]crc, @tag(  007 //x
+)repeatCount ,
+repeat
+    //x
+    char[] Header, @rightPad ( )char[] string_ `a\` ,
+    }
+")).
 Eval vm_compute in ("<<<M307>>>" ++ check (runes_of_ascii "  packet	charz	{
 // " ++ [27880; 37322]%N ++ runes_of_ascii "
 /// triple
@@ -744,42 +708,23 @@ Heartbeat	,
     clOrdID
 ,
     } ")).
-Eval vm_compute in ("<<<M1526>>>" ++ check (runes_of_ascii "  packet Z9_ {@calculatedFrom(
-""packet""
-
-)
-	char  //
-  BodyLength ,
-	match
-chars
-
-    as falsey{
-[
-65535
-
-    ,
-        // c
-	""" ++ [128512]%N ++ runes_of_ascii """, 
-""" ++ [28040; 24687]%N ++ runes_of_ascii """,""`tick`"", 10 ,
-	""a\\""
-
-,  ""a\""b""	// @lengthOf(
-
-] : 
-repeatCount
+Eval vm_compute in ("<<<M32>>>" ++ check (runes_of_ascii "packet int { T/// triple
+{ repeat _x ,	} ,
+    i64_ _x
+    `
+`, @calculatedFrom( ""x y"" )u32 A
+,  match a1 as
+    i8i8 { [ ""1""
 ,
-""x y""
-	:
-chars
-,  // " ++ [128512]%N ++ runes_of_ascii " emoji
-65535
-	: 	 //x
-  calculatedFrom  ,
-
-    }  , 
-}
-
-")).
+4294967296
+]:
+    a1 ,"""":	a1
+    , 007: a1 , [ ""CRC32"" ] :Header} , int64 As, int8 a1 , //
+char[] float
+`tab	here`/// triple
+,
+repeat zchar[ 1	]u8x,
+} /// triple")).
 Eval vm_compute in ("<<<M1250>>>" ++ check (runes_of_ascii "// top
 packet
     // c0
